@@ -274,7 +274,7 @@ func runR051(c *core.Ctx) {
 									rows++
 									present := map[string]bool{"q": q, "ids": ids, "action": action}
 									env := core.FinEnv{entVars[0]: ent}
-									it := &core.FinInterp{Info: inf}
+									it := &core.FinInterp{Info: inf, M: c.M}
 									it.Bind = func(e ast.Expr, env core.FinEnv) (interface{}, bool) {
 										switch x := e.(type) {
 										case *ast.IndexExpr:
